@@ -284,6 +284,10 @@ class Encoder:
         self._divcache = {}
         self._constcache = {}
         self.const_by_id = {}
+        # incremental solver over the definitions, used only to prune calls that sit on infeasible paths
+        self._fs = z3.Solver()
+        self._fs.set("timeout", 1500)
+        self.pruned_calls = 0
         self.bounds = bounds or {}
         self.resolver = resolver      # callable(callee text, nargs) -> Function | None
         self.call_depth = 0
@@ -297,6 +301,8 @@ class Encoder:
         for d in defined:
             self.const_by_id[d.get_id()] = d
         self.defs.append((tuple(d.get_id() for d in defined), constraint))
+        if self._fs is not None:
+            self._fs.add(constraint)
 
     def fresh(self, base, sort="Int"):
         self.counter += 1
@@ -1754,6 +1760,17 @@ class Encoder:
     def inline_fn(self, state, callee, sg, argv, pc):
         if self.call_depth >= 12 or callee.name in self.call_stack:
             raise Refuse("call depth/recursion at %s" % sg)
+        if len(callee.blocks) >= 20 and not z3.is_true(pc):
+            # do not expand a large callee on a path that is already infeasible (e.g. the Arc kinds of the
+            # TimeZone tag dispatch, or the rounding path of `until` when no rounding was requested)
+            self._fs.push()
+            self._fs.add(pc)
+            r = self._fs.check()
+            self._fs.pop()
+            if r == z3.unsat:
+                self.pruned_calls += 1
+                self.notes.append("call on a path proved infeasible was not expanded: " + sg[:80])
+                return ("diverge",)
         argv = [self.snapshot_refs(state, v) for v in argv]
         self.inlined_calls[sg] = self.inlined_calls.get(sg, 0) + 1
         saved = (self.fn, self.ret_cond, self.ret_val)
